@@ -104,7 +104,7 @@ theorem c31_registered_found (H : Text → Hash) (parse : Text → Option Doc) (
 theorem c31_plain_untouched (H : Text → Hash) (parse : Text → Option Doc) (s : Store Hash Doc) (q : Text) :
     (step H parse s ⟨q, .none⟩).1 = s ∧
       (step H parse s ⟨q, .none⟩).2 = (match parse q with | some d => .exec d | none => .err .parse) := by
-  simp [step]
+  cases hp : parse q <;> simp [step, hp]
 
 /-- Whole histories against the reference acceptor of `Spec/PQ.lean` (registrations are the only
     state; a hash-only request runs the LATEST registration under its hash or fails NotFound;
